@@ -31,6 +31,7 @@ type PropConfig struct {
 	FramePkgs []string `json:"frame_packages"`
 	ReadOnly map[string][]string `json:"frame_read_only"`
 	AllowSync []string `json:"frame_allow_sync"`
+	FreshResults []string `json:"frame_fresh_results"`
 }
 
 type KnownFinding struct {
@@ -207,7 +208,21 @@ func cmdCheck(args []string) int {
 		for k, v := range pc.ReadOnly {
 			ro[k] = v
 		}
+		for _, k := range pc.FreshResults {
+			frameFreshResults[k] = true
+		}
 		fobls, fas := fe.FrameObligations(pc.FramePkgs, ro, allow)
+		for k := range frameFreshResults {
+			found := false
+			for _, o := range fobls {
+				if o.Name == k+"/frame:result-fresh" {
+					found = true
+				}
+			}
+			if !found {
+				stale = append(stale, staleUnit{"frame:" + k, "fresh-result function " + k + " not found in the current tree"})
+			}
+		}
 		for _, a := range fas {
 			g.noteAssumption(a)
 		}
